@@ -271,6 +271,48 @@ func (g *G) Generic() Cmd {
 	case 9:
 		return g.cmd("PERSIST", g.Key())
 	case 10:
+		if g.chance(0.4) {
+			// a pattern made from one of the program's own keys: literal, literal through escapes only, one byte
+			// replaced by ?, by a one-member class, by a class holding a star, or cut off before a star
+			k := g.Key()
+			esc := func(s string, every bool) string {
+				var b strings.Builder
+				for i := 0; i < len(s); i++ {
+					if every || strings.IndexByte("*?[]\\^-", s[i]) >= 0 || i == len(s)/2 {
+						b.WriteByte('\\')
+					}
+					b.WriteByte(s[i])
+				}
+				return b.String()
+			}
+			switch g.R.Intn(7) {
+			case 0:
+				return g.cmd("KEYS", esc(k, false))
+			case 1:
+				return g.cmd("KEYS", esc(k, true))
+			case 2:
+				if len(k) > 0 {
+					i := g.R.Intn(len(k))
+					return g.cmd("KEYS", esc(k[:i], false)+"?"+esc(k[i+1:], false))
+				}
+			case 3:
+				if len(k) > 0 {
+					i := g.R.Intn(len(k))
+					return g.cmd("KEYS", esc(k[:i], false)+"[*"+esc(k[i:i+1], true)+"]"+esc(k[i+1:], false))
+				}
+			case 4:
+				if len(k) > 0 {
+					i := g.R.Intn(len(k))
+					return g.cmd("KEYS", esc(k[:i], false)+"*")
+				}
+			case 5:
+				if len(k) > 0 {
+					i := g.R.Intn(len(k))
+					return g.cmd("KEYS", "*"+esc(k[i:], false))
+				}
+			}
+			return g.cmd("KEYS", esc(k, false)+"*")
+		}
 		return g.cmd("KEYS", g.pick([]string{"*", "k*", "?", "[kK]", "F*o", "*o", "a?b", "\\*", "[^k]*", "k\r*", "*\\b", "*?", "", "[a-z]*", "[x", "k\\"}))
 	}
 	if g.chance(0.5) {
